@@ -109,10 +109,14 @@ func MintCA(key crypto.Signer, notAfter time.Time) (*x509.Certificate, []byte) {
 }
 
 func MintLeaf(ca *x509.Certificate, caKey crypto.Signer, key crypto.Signer, notAfter time.Time, serial int64) (*x509.Certificate, []byte) {
+	return MintLeafUsage(ca, caKey, key, notAfter, serial, x509.KeyUsageDigitalSignature)
+}
+
+func MintLeafUsage(ca *x509.Certificate, caKey crypto.Signer, key crypto.Signer, notAfter time.Time, serial int64, usage x509.KeyUsage) (*x509.Certificate, []byte) {
 	tpl := &x509.Certificate{
 		SerialNumber: big.NewInt(serial), Subject: pkix.Name{CommonName: "sim signer"},
 		NotBefore: time.Now().Add(-time.Hour), NotAfter: notAfter,
-		KeyUsage: x509.KeyUsageDigitalSignature,
+		KeyUsage: usage,
 	}
 	der, err := x509.CreateCertificate(rand.Reader, tpl, ca, key.Public(), caKey)
 	if err != nil {
